@@ -107,7 +107,19 @@ impl TargetWatcher {
                 crate::verif::emit(
                     "watch_event",
                     &target_id.to_string(),
-                    &[("relevant", (!relevant_files.is_empty()).to_string())],
+                    &[
+                        ("relevant", (!relevant_files.is_empty()).to_string()),
+                        (
+                            "paths",
+                            format!(
+                                "[{}]",
+                                itertools::join(
+                                    relevant_files.iter().map(|path| crate::verif::js(&path.to_string_lossy())),
+                                    ","
+                                )
+                            ),
+                        ),
+                    ],
                 );
 
                 if !relevant_files.is_empty() {
